@@ -9,7 +9,8 @@ From NV Require Import Lang.Ast Lang.Types.
 Import ListNotations.
 
 Inductive rule :=
-  | ROperand        (* operand of the wrong type; path -> EUn/EBin node; arg = 2*literal choice + operand index *)
+  | ROperand        (* operand of the wrong type; path -> EUn/EBin node, or (at a i) / (array_length a) / a non-empty array
+                       literal (its first element); arg = 2*literal choice + operand index *)
   | RArgType        (* argument of the wrong type; path -> ECall node; arg = 2*argument index + literal choice *)
   | RArityPlus      (* one argument too many; path -> ECall *)
   | RArityMinus     (* one argument too few; path -> ECall with at least one argument *)
@@ -30,7 +31,7 @@ Record position := { p_fn : nat; p_path : list nat; p_arg : N }.
 
 (* ---------------------------------------------------------------- literals of a wrong type *)
 Definition lit_of (t : ty) : expr :=
-  match t with TInt => ENum 0 | TBool => EBool true | TStr => EStr [120%N] | TVoid => ENum 0 end.
+  match t with TInt => ENum 0 | TBool => EBool true | TStr => EStr [120%N] | TVoid => ENum 0 | TArr => EArr [] end.
 Definition lit_ty (e : expr) : ty := match e with EBool _ => TBool | EStr _ => TStr | _ => TInt end.
 (* two literals whose type differs from t, chosen by k *)
 Definition wrong_lit (t : ty) (k : N) : expr :=
@@ -39,6 +40,7 @@ Definition wrong_lit (t : ty) (k : N) : expr :=
   | TBool => if N.even k then ENum 7 else EStr [120%N]
   | TStr => if N.even k then ENum 7 else EBool true
   | TVoid => if N.even k then ENum 7 else EBool true
+  | TArr => if N.even k then ENum 7 else EBool true
   end.
 
 (* type of an expression when it does not depend on the scope *)
@@ -77,6 +79,21 @@ Fixpoint at_expr (pos : list nat) (f : expr -> option expr) (e : expr) {struct e
           | S O => option_map (fun a' => ECond c a' b) (at_expr pos' f a)
           | S (S O) => option_map (ECond c a) (at_expr pos' f b)
           | _ => None end
+      | EArr es =>
+          option_map EArr
+            ((fix go (l : list expr) (k : nat) {struct l} : option (list expr) :=
+                match l with
+                | [] => None
+                | a :: r => match k with
+                            | O => option_map (fun a' => a' :: r) (at_expr pos' f a)
+                            | S k' => option_map (cons a) (go r k') end
+                end) es k)
+      | EAt a i =>
+          match k with
+          | O => option_map (fun a' => EAt a' i) (at_expr pos' f a)
+          | S O => option_map (EAt a) (at_expr pos' f i)
+          | _ => None end
+      | ELen a => match k with O => option_map ELen (at_expr pos' f a) | _ => None end
       | _ => None
       end
   end.
@@ -159,6 +176,9 @@ Definition rw_operand (arg : N) (e : expr) : option expr :=
       else (* == and != : the other operand decides which literal is wrong *)
         if right then match abs_ty a with Some t => Some (EBin o a (wrong_lit t k)) | None => None end
         else match abs_ty b with Some t => Some (EBin o (wrong_lit t k) b) | None => None end
+  | EAt a i => Some (if right then EAt a (wrong_lit TInt k) else EAt (wrong_lit TArr k) i)
+  | ELen _ => Some (ELen (wrong_lit TArr k))
+  | EArr (_ :: r) => Some (EArr (wrong_lit TInt k :: r))
   | _ => None
   end.
 
